@@ -89,7 +89,8 @@ VERIF_OBLIGATION(obl_c11_cyl_centered)
     check_safety(s, [r](Real3 const& x) { return x[0] * x[0] + x[1] * x[1] - r * r; }, pos);
 }
 // C11.2: surface types without simple safety report exactly 0 (always conservative)
-VERIF_OBLIGATION(obl_c11_not_simple)
+// one obligation per type: when a type's answer is not the constant 0 its query is a hard nonlinear one, and must not starve the others
+VERIF_OBLIGATION(obl_c11_not_simple_cyl)
 {
     Real3 pos = vec("pos");
     Real3 o = vec("o");
@@ -97,7 +98,25 @@ VERIF_OBLIGATION(obl_c11_not_simple)
     verif_assume(r > 0);
     verif_reach("not_simple");
     verif_assert(CalcSafetyDistance{pos}(CylX(o, r)) == 0, "CylAligned: safety 0");
+}
+VERIF_OBLIGATION(obl_c11_not_simple_cone)
+{
+    Real3 pos = vec("pos");
+    Real3 o = vec("o");
+    double r = num("r");
+    verif_assume(r > 0);
+    verif_reach("not_simple");
     verif_assert(CalcSafetyDistance{pos}(ConeZ(o, r)) == 0, "ConeAligned: safety 0");
+}
+VERIF_OBLIGATION(obl_c11_not_simple_sq)
+{
+    Real3 pos = vec("pos");
+    verif_reach("not_simple");
     verif_assert(CalcSafetyDistance{pos}(SimpleQuadric(vec("a"), vec("d"), num("g"))) == 0, "SimpleQuadric: safety 0");
+}
+VERIF_OBLIGATION(obl_c11_not_simple_gq)
+{
+    Real3 pos = vec("pos");
+    verif_reach("not_simple");
     verif_assert(CalcSafetyDistance{pos}(GeneralQuadric(vec("a2"), vec("d2"), vec("g2"), num("j"))) == 0, "GeneralQuadric: safety 0");
 }
